@@ -605,8 +605,23 @@ def opCtxTypeId (inp : Json) : Except String Json := do
   let sch ← ctxSchemaOf (← inp.getObjVal? "schema")
   pure (exceptJ Json.str (Ctx.typeIDFromContext sch (← jstr inp "type")))
 
+/-- a credential with a list of proofs, each with two oracle bits: the credential is bound to the claim it carries, and it
+    verifies over that claim -/
+def opVerifyList (inp : Json) : Except String Json := do
+  let kindOf (s : String) : Verify.ProofKind :=
+    if s == "BJJSignature2021" then .bjj else if s == "Iden3SparseMerkleTreeProof" then .smt else .other s
+  let wanted := kindOf (← jstr inp "wanted")
+  let proofs ← (← (← inp.getObjVal? "proofs").getArr?).toList.mapM fun j => do
+    pure (kindOf (← jstr j "type"), ((← (← j.getObjVal? "bound").getBool?), (← (← j.getObjVal? "valid").getBool?)))
+  pure (match Verify.verifyList proofs wanted (fun _ => true) (fun p => if p.1 then .ok () else .error "bind")
+      (fun p => if p.2 then .ok else .err "invalid") with
+    | .ok => okJ (Json.str "accepted")
+    | .revoked => errJ "revoked"
+    | .err e => errJ e)
+
 def handle (k : Pos.Consts) (op : String) (inp : Json) : Except String Json :=
   match op with
+  | "verify.list" => opVerifyList inp
   | "pre.hash" => opPreHash k inp
   | "pre.hashbytes" => opPreHashBytes k inp
   | "xsd.hash" => opXsdHash k inp
